@@ -175,7 +175,7 @@ pub fn c14(tier: &str) -> i32 {
             };
             let opts = Opts { max_depth: 64, max_memo: 64, dev_budget: 0, frame: FrameSel::Both, ref_in_key: false, shape_key: true, max_path: lp, ..Opts::default() };
             let t0 = std::time::Instant::now();
-            let ex = Explorer { base_cfg: cfg, opts, monitor: &guard, xval_full: Default::default() };
+            let ex = Explorer { base_cfg: cfg, opts, monitor: &guard, xval_full: Default::default(), choice_discovery: Default::default() };
             let out = ex.explore(None);
             let l = format!("P{p}/{label}/shape/Lp{lp}");
             if verbose {
@@ -205,7 +205,7 @@ pub fn c14(tier: &str) -> i32 {
         let cfg = Cfg::new(p).flags(true, true);
         let opts = Opts { max_depth: d, max_memo: m, dev_budget: 0, frame: FrameSel::Off, ref_in_key: false, alias_key: true, ..Opts::default() };
         let t0 = std::time::Instant::now();
-        let ex = Explorer { base_cfg: cfg, opts, monitor: &guard, xval_full: Default::default() };
+        let ex = Explorer { base_cfg: cfg, opts, monitor: &guard, xval_full: Default::default(), choice_discovery: Default::default() };
         let out = ex.explore(None);
         let l = format!("P{p}/none/alias-relation/D{d}M{m}");
         if verbose {
